@@ -857,7 +857,8 @@ pub fn run_c14(cfg: &Config) -> i32 {
 	{
 		let rep = parallel(cfg.threads, 8, |i| {
 			let mut rep = Report::new();
-			for len in (0..=40usize).filter(|l| l % 8 == i) {
+			let lens: Vec<usize> = if cfg!(miri) { vec![16].into_iter().filter(|_| i == 0).collect() } else if cfg.san { vec![0, 15, 16, 17, 33].into_iter().filter(|l| l % 8 == i).collect() } else { (0..=40usize).filter(|l| l % 8 == i).collect() };
+			for len in lens {
 				let base: String = (0..len).map(|j| char::from(b'0' + (j % 10) as u8)).collect();
 				let mut variants: Vec<String> = Vec::new();
 				for pos in [0, len / 2, len.saturating_sub(1)] {
